@@ -288,6 +288,8 @@ func genHLSCase(t *rapid.T) *caseSpec {
 			f.Hdr = 0x65
 		} else if rnd()%9 == 0 {
 			f.Hdr = 0x06
+		} else if rnd()%12 == 0 { // any other nal_unit_type, nal_ref_idc 1..3
+			f.Hdr = byte(1+rnd()%3)<<5 | otherNalTypes[int(rnd())%len(otherNalTypes)]
 		}
 		if dtsLag <= f.PTS {
 			f.DTS = f.PTS - dtsLag
